@@ -12,12 +12,13 @@ ID = "C05"
 LEVEL = "proof"
 LEAN_IMPORTS = ["WM.Props.C05"]
 THEOREMS = ["WM.C05.topk", "WM.C05.unlimited", "WM.C05.limited_eq_prefix_of_unlimited", "WM.C05.contract_covered",
-            "WM.C05.with_wrappers_partial", "WM.C05.collapse_order_counterexample"]
+            "WM.C05.with_wrappers_partial", "WM.C05.collapse_order_counterexample", "WM.C05.segment_order_matters"]
 PARTIAL = {"WM.C05.with_wrappers_partial":
            "full statement WM.C05.with_wrappers_full also covers CollapseCollector: open for collapsing by result "
            "order (only checked differentially), refuted for collapse_order (WM.C05.collapse_order_counterexample, "
            "recorded finding)"}
-RULE = ("collector stream: random abstract segments (0-12 postings each, 1-4 segments, tied quarter-integer "
+RULE = ("collector stream: random abstract segments (0-12 postings each, 1-4 segments of different sizes - the fake "
+        "searcher is a real whoosh Searcher over fake readers that answer doc_count()/doc_count_all() per segment -, tied quarter-integer "
         "scores incl. zero and negative ones, random block flags) x random schedule of wishes (drop / lower the "
         "score, in replace() and in skip_to_quality()) x limit/replace/usequality/final; non-trivial = the "
         "schedule really dropped a posting or the heap refused/evicted one. "
@@ -27,7 +28,9 @@ RULE = ("collector stream: random abstract segments (0-12 postings each, 1-4 seg
         "weighting, DisjunctionMax with a non-zero tie-breaker (plain, nested, boosted, and the Or-of-per-word-dismax "
         "shape DisMaxParser builds; the general query generator also draws tiebreak from {0, 0.25, 0.5, 1, 2}), "
         "Require/AndMaybe/AndNot whose scored side is an intersection (And of frequent terms, Phrase, And with a "
-        "union) over blocklimit 1-3 posting lists; non-trivial = the limited search reported skipped_times+replaced_times > 0; distinct = distinct "
+        "union) over blocklimit 1-3 posting lists, Or with a coordination scale (Or(subs, scale=s) = OrGroup.factory(s): "
+        "CoordMatcher over 2-4 frequent terms, plain / boosted / nested / terms=True, BM25F-biased, blocklimit 1-4; the "
+        "general query generator gives 30% of its Or nodes a scale from {0.5, 0.9, 1, 1.5, 1.75, 2}); non-trivial = the limited search reported skipped_times+replaced_times > 0; distinct = distinct "
         "canonical case. A failing case is attributed to a recorded root cause only if it passes when exactly that "
         "root cause is repaired in-process and the cause's precondition holds on the minimised input")
 ASSUMPTIONS = ["matchers honour the C12 contract WM.Matcher.Keeps for a non-zero threshold q (entries scoring > q are "
@@ -41,9 +44,16 @@ ASSUMPTIONS = ["matchers honour the C12 contract WM.Matcher.Keeps for a non-zero
                "compare floats for equality and would report it",
                "the exhaustive ranking is taken at the scores the postings have when the search starts "
                "(hypothesis Fresh of WM.C05.topk: ghost field orig = score on input)",
-               "heapq implements a priority queue; list.sort is a stable sort"]
-TRUSTED = ["the scheduled fake matcher of harness/gen/collect.py (drives the real collectors with the same "
-           "schedule the Lean model consumes)",
+               "heapq implements a priority queue; list.sort is a stable sort",
+               "Collector.run visits the leaf searchers in index order, i.e. documents reach the collector in ascending "
+               "global document number (hypothesis hwf of WM.C05.topk, mirrored by runSegs; WM.C05.segment_order_matters "
+               "shows on a three-document instance that the hypothesis cannot be dropped: with another visiting order "
+               "tied documents of an earlier segment lose). The collector stream drives the real Collector.run over "
+               "segments of different sizes, so a change of the visiting order is a divergence"]
+TRUSTED = ["the scheduled fake matcher and the fake readers / query of harness/gen/collect.py (subclasses of the real "
+           "whoosh Matcher, IndexReader, Query, WeightingModel; the fake searcher is a real whoosh Searcher over them "
+           "and drives the real collectors through the real search_with_collector with the same schedule the Lean "
+           "model consumes)",
            "the in-process repairs used to attribute failures to recorded root causes (harness/props/c05.py ROOT_CAUSES)"]
 MANIFEST = {
     "level_text": "Lean theorem C05.topk: for every limit>=1, replace period, quality switch, final() hook, segment "
@@ -164,8 +174,9 @@ def _stream_collectors(ctx):
         if not case["segs"] and model[0] == "ok" and impl[0] == "ok":
             model, impl = model[:7], impl[:7]
         if model != impl:
+            # (no `continue`: the real collectors are still held against the Lean specification below, which turns
+            # a divergence into a concrete failing input whenever the property itself is broken)
             ctx.divergence("collectors.ScoredCollector.matches+TopCollector", _top_line(case), model, impl)
-            continue
         if impl[0] == "ok" and nhits and len(impl) > 7 and impl[7] != nhits:
             ctx.violation("TopCollector(fake matcher within contract):len(results)!=matched", _top_line(case),
                           nhits, impl[7], "len(results) of a limited search is not the number of matching documents")
@@ -256,7 +267,7 @@ def _e2e_run_one(s, qd, ks, exact, optimize=True, extra=None):
 def _gen_extra(rng, ndocs):
     """Wrapping collectors: filter / mask (id set or query), collapse, terms recording."""
     kind = rng.choice(["filter-set", "filter-query", "mask-set", "mask-query", "collapse", "collapse", "terms",
-                       "filter+collapse", "filter+mask", "terms"])
+                       "filter+collapse", "filter+mask", "terms", "filter-results", "mask-results"])
     ids = sorted(rng.sample(range(ndocs), rng.randint(0, ndocs)))
     fq = ["term", "t", rng.choice(G.VOCAB)]
     if kind == "filter-set":
@@ -267,6 +278,9 @@ def _gen_extra(rng, ndocs):
         return {"mask": ids}
     if kind == "mask-query":
         return {"mask": fq}
+    if kind in ("filter-results", "mask-results"):
+        # the Results object of a limited scored search: it stands for every document its query matched
+        return {kind.split("-")[0]: {"results": fq, "limit": rng.choice([1, 2, 3, 10])}}
     if kind == "collapse":
         return {"collapse": "k", "collapse_limit": rng.choice([1, 1, 2])}
     if kind == "terms":
@@ -297,7 +311,7 @@ def _e2e_worker(arg):
             qd = G.gen_query(rng, depth=rng.choice([1, 2, 2, 3, 3, 4]), allow_zero_boost=zero)
             ks = _ks(n)
             extra = _gen_extra(rng, len(corpus["docs"])) if rng.random() < 0.3 else None
-            res = _e2e_run_one(s, qd, ks, wname in EXACT_WEIGHTINGS, extra=_build_extra(extra))
+            res = _e2e_run_one(s, qd, ks, wname in EXACT_WEIGHTINGS, extra=_build_extra(extra, s))
             recs.append({"corpus": corpus, "weighting": wname, "q": qd, "n": n, "res": res, "zero": zero,
                          "extra": extra})
     return recs
@@ -379,8 +393,8 @@ def _still_fails(corpus, wname, qd, k, optimize=True, replace=None, usequality=N
     ix = G.build_index(corpus)
     exact = wname in EXACT_WEIGHTINGS
     engaged, restore = (set(), None)
-    kw = _build_extra(extra)
     with ix.searcher(weighting=G.build_weighting(wname)) as s:
+        kw = _build_extra(extra, s)
         if k >= s.doc_count() or k < 1:
             return (None, set()) if detail else None
         q = G.build_query(qd)
@@ -420,13 +434,16 @@ def _still_fails(corpus, wname, qd, k, optimize=True, replace=None, usequality=N
         return (kind, engaged) if detail else kind
 
 
-def _build_extra(extra):
-    """extra search() keyword arguments from their JSON-able description."""
+def _build_extra(extra, searcher=None):
+    """extra search() keyword arguments from their JSON-able description (a filter / mask given as a Results
+    object needs the searcher: the object is produced by a limited scored search on it)."""
     if not extra:
         return {}
     kw = {}
     for key, v in extra.items():
-        if key in ("filter", "mask"):
+        if key in ("filter", "mask") and isinstance(v, dict):
+            kw[key] = searcher.search(G.build_query(v["results"]), limit=v["limit"])
+        elif key in ("filter", "mask"):
             kw[key] = set(v) if isinstance(v, list) and (not v or isinstance(v[0], int)) else G.build_query(v)
         else:
             kw[key] = v
@@ -475,6 +492,45 @@ def _rc_array_union_positive():
         compound.Or.matcher_type = orig
 
 
+@contextlib.contextmanager
+def _rc_coord_replace():
+    """CoordMatcher.score() depends on the *number of matching terms* of the document, but CoordMatcher.replace()
+    hands a (correctly translated) score threshold to its child, and a child replace() only promises to keep
+    *scores*: DisjunctionMaxMatcher.replace drops the side that cannot reach the threshold, a document matching
+    both sides keeps its child score (the max) but loses a matching term, i.e. its coordination bonus.
+    Repair: only structural replacement (threshold 0) below a CoordMatcher."""
+    from whoosh.matching import wrappers
+    orig = wrappers.CoordMatcher.replace
+
+    def replace(self, minquality=0):
+        r = self.child.replace(0)
+        if r is not self.child:
+            return self._replacement(r)
+        return self
+    wrappers.CoordMatcher.replace = replace
+    try:
+        yield
+    finally:
+        wrappers.CoordMatcher.replace = orig
+
+
+def _has_coord_over_dismax(c, wname, q, ex):
+    """Precondition of the CoordMatcher.replace root cause: an Or with a coordination scale that has a
+    DisjunctionMax below it."""
+    def walk(x, under):
+        if not (isinstance(x, list) and x and isinstance(x[0], str) and x[0] in G.KINDS):
+            return False
+        here = under or (x[0] == "or" and len(x) > 2 and bool(x[2]))
+        if x[0] == "dismax" and here:
+            return True
+        for y in x[1:]:
+            if isinstance(y, list):
+                if walk(y, here) or any(walk(z, here) for z in y if isinstance(z, list)):
+                    return True
+        return False
+    return walk(q, False)
+
+
 def _has_boost_above_one(c, wname, q, ex):
     """Precondition of the WrappingMatcher.replace root cause: the query carries a boost > 1."""
     if q[0] == "boost" and q[-1] > 1:
@@ -499,7 +555,7 @@ def _has_nonpositive_hit(c, wname, q, ex):
     with ix.searcher(weighting=G.build_weighting(wname)) as s:
         try:
             with G.time_limit(SEARCH_TIMEOUT):
-                r = s.search(G.build_query(q), limit=None, **_build_extra(ex))
+                r = s.search(G.build_query(q), limit=None, **_build_extra(ex, s))
         except Exception:  # noqa
             return False
         return any(sc <= 0 for sc, _ in r.top_n)
@@ -509,6 +565,8 @@ def _has_nonpositive_hit(c, wname, q, ex):
 ROOT_CAUSES = [
     ("WrappingMatcher.replace:boost>1:threshold-not-divided-by-boost", _rc_wrapping_replace, _has_boost_above_one),
     ("ArrayUnionMatcher:document-with-score<=0-is-no-match", _rc_array_union_positive, _has_nonpositive_hit),
+    ("CoordMatcher.replace:child-replace-keeps-scores-but-sheds-matching-terms(DisjunctionMax-below-Or(scale))",
+     _rc_coord_replace, _has_coord_over_dismax),
 ]
 
 
@@ -738,7 +796,7 @@ def _stream_e2e(ctx):
         # use the quick time budget: batches of corpora until ~40 s of the run are spent (the machine is
         # shared: the number of batches adapts to its load; every case is still determined by its index)
         recs, i0, batch, maxn = [], 0, 240, ctx.budget(3600, 3600)
-        while i0 < maxn and (i0 < batch or ctx.elapsed() < 38):
+        while i0 < maxn and (i0 < batch or ctx.elapsed() < 34):
             results = ctx.pmap(_e2e_worker, [mk(i) for i in range(i0, i0 + batch)], chunksize=4)
             recs.extend(r for rs in results for r in rs)
             i0 += batch
@@ -1092,6 +1150,56 @@ def _binary_intersection_worker(seedstr):
                         "extra": None})
     return out
 
+def _coord_worker(seedstr):
+    """Or(..., scale=s) (what qparser.OrGroup.factory(s) builds): CoordMatcher adds a per-document bonus for
+    every further matching term and translates the collector's threshold into its child union's units in
+    replace() and skip_to_quality(); documents matching several frequent terms over multi-block posting lists
+    with k below the number of matches: the translated threshold must stay a bound."""
+    import random
+    rng = random.Random(seedstr)
+    corpus = G.gen_corpus(rng, maxdocs=80)
+    corpus["blocklimit"] = rng.choice([1, 1, 2, 2, 3, 4])
+    if rng.random() < 0.5:
+        corpus["cuts"] = []
+    wname = rng.choice(["bm25", "bm25", "bm25b0", "bm25k", "tfidf", "freq"])
+    exact = wname in EXACT_WEIGHTINGS
+    out = []
+    ix = G.build_index(corpus)
+
+    def t(w=None, f=None):
+        return ["term", f or rng.choice(["t", "t", "t", "u"]), w or rng.choice(G.VOCAB)]
+    with ix.searcher(weighting=G.build_weighting(wname)) as s:
+        n = s.doc_count()
+        for _ in range(8):
+            scale = rng.choice(G.COORD_SCALES + [0.9, 0.5])
+            words = _frequent_words(corpus, rng, rng.choice([2, 2, 2, 3, 4]))
+            shape = rng.choice(["plain", "plain", "plain", "plain", "mixed", "boosted-sub", "boost", "nested", "terms"])
+            extra = None
+            if shape == "plain":
+                qd = ["or", [t(w, "t") for w in words], scale]
+            elif shape == "mixed":
+                qd = ["or", [t(words[0], "t"), t(words[1], "t"), t()], scale]
+            elif shape == "boosted-sub":
+                qd = ["or", [t(words[0], "t"), ["boost", t(words[1], "t"), rng.choice([0.5, 0.25])]], scale]
+            elif shape == "boost":
+                qd = ["boost", ["or", [t(w, "t") for w in words], scale], rng.choice([0.5, 0.25])]
+            elif shape == "nested":
+                qd = [rng.choice(["andmaybe", "or", "and"])] + (
+                    [t(), ["or", [t(w, "t") for w in words[:2]], scale]] if rng.random() < 0.5 else
+                    [[["or", [t(w, "t") for w in words[:2]], scale], t()]])
+                if qd[0] == "andmaybe" and len(qd) == 2:
+                    qd = ["andmaybe", qd[1][0], qd[1][1]]
+                elif qd[0] != "andmaybe" and len(qd) == 3:
+                    qd = [qd[0], [qd[1], qd[2]]]
+            else:
+                qd = ["or", [t(w, "t") for w in words], scale]
+                extra = {"terms": True}
+            res = _e2e_run_one(s, qd, [k for k in (1, 2, 3, 5, 10) if k < n], exact, extra=_build_extra(extra))
+            out.append({"corpus": corpus, "weighting": wname, "q": qd, "n": n, "res": res, "zero": False,
+                        "extra": extra})
+    return out
+
+
 def _stream_focused(ctx, name, worker, n, about):
     recs = [r for rs in ctx.pmap(worker, ["%s:%d:%d:%s" % (ctx.pid, ctx.seed, i, name) for i in range(n)],
                                  chunksize=2) for r in rs]
@@ -1112,7 +1220,12 @@ def _stream_focused(ctx, name, worker, n, about):
             ctx.stat("e2e:%s:optimisation-engaged" % name)
         if bad:
             todo.append((r["corpus"], r["weighting"], r["q"], int(bad[0]), bad[1], r["extra"]))
-    for m in ctx.pmap(_shrink_worker, todo[:ctx.budget(12, 60)]):
+    todo = todo[:ctx.budget(12, 60)]
+    if ctx.tier == "quick" and ctx.elapsed() > 30:
+        # a broken tree fails in many streams: past 30 s only a few cases per stream are minimised (with a smaller
+        # budget), past 60 s they are classified as they are
+        todo = [tuple(a[:6]) + (0 if ctx.elapsed() > 60 else 80,) for a in todo[:4]]
+    for m in ctx.pmap(_shrink_worker, todo):
         ctx.violation(signature_of(m), {"corpus": m["corpus"], "weighting": m["weighting"], "q": m["q"], "k": m["k"],
                                         "nodes": m["nodes"], "extra": m.get("extra")},
                       "first k of the exhaustive ranking", m["kind"],
@@ -1139,6 +1252,11 @@ def _stream_binary_intersection(ctx):
                     "Require/AndMaybe/AndNot whose scored side is an intersection, multi-block posting lists")
 
 
+def _stream_coord(ctx):
+    _stream_focused(ctx, "coord", _coord_worker, ctx.budget(120, 600),
+                    "Or with a coordination scale (CoordMatcher), frequent terms, multi-block posting lists")
+
+
 def _stream_deleted_blocks(ctx):
     _stream_focused(ctx, "delblocks", _deleted_blocks_worker, ctx.budget(120, 1200),
                     "deleted documents among the best hits, tiny posting blocks")
@@ -1156,6 +1274,7 @@ def run(ctx):
             _stream_binary_compound(ctx)
             _stream_dismax_tiebreak(ctx)
             _stream_binary_intersection(ctx)
+            _stream_coord(ctx)
             _stream_e2e(ctx)
         finally:
             G.cleanup_private_tmp()
